@@ -675,8 +675,13 @@ def _child_c14(unit: dict) -> dict:
         rec["statuses"] = sts
         if rc["status"] != "ok":
             rec["errs"].append(["stream-route-fails", rc["status"]])
-        if ra["status"] != rb["status"] or any(
-                r["status"] != ra["status"] for r in rb2.values()):
+        # otel2puml learns the workflows one after the other and stops at
+        # the first failure; route B learns each workflow in its own
+        # process: A succeeds iff otel2pv and every pv2puml succeed
+        a_ok = ra["status"] == "ok"
+        b_ok = rb["status"] == "ok" and all(
+            r["status"] == "ok" for r in rb2.values())
+        if a_ok != b_ok:
             rec["errs"].append(["routes-differ-in-outcome", json.dumps(sts)])
         pumls_a, pumls_b = {}, {}
         if ra["status"] == "ok":
@@ -691,7 +696,7 @@ def _child_c14(unit: dict) -> dict:
                         open(os.path.join(out_b2, fn)).read())
         rec["pumls"] = sorted(pumls_a)
         rec["gates"] = sum(v.get("gates", 0) for v in pumls_a.values())
-        if ra["status"] == "ok" and rb["status"] == "ok":
+        if a_ok and b_ok:
             want = sorted(w.replace(" ", "_") + ".puml" for w in exp_wfs)
             if sorted(pumls_a) != want:
                 rec["errs"].append(["workflow-set", f"otel2puml wrote "
